@@ -2,6 +2,7 @@ package harness
 
 import (
 	"fmt"
+	"os"
 	"sort"
 	"strings"
 	"testing"
@@ -10,6 +11,7 @@ import (
 
 	"github.com/MichaelMure/git-bug/entities/bug"
 	"github.com/MichaelMure/git-bug/entity"
+	"github.com/MichaelMure/git-bug/repository"
 
 	"verif/harness/internal/ondisk"
 	"verif/harness/internal/refmodel"
@@ -301,4 +303,119 @@ func kindMultiset(w *World) string {
 
 func TestC01Convergence(t *testing.T) {
 	Drive(t, "C01", genWorldCase, runC01)
+}
+
+// ---------------------------------------------------------------- convergence as the users see it: through the cache
+
+// runC01Cache: two users work only through cache.RepoCache (edits, pushes, pulls, re-opened and rebuilt caches,
+// small cache sizes), then pull and push until nothing moves. Afterwards both caches hand out, for every bug,
+// the same operations in the same order, and those are the operations git holds.
+func runC01Cache(tb report.TB, rep *report.Reporter, c c11Case) {
+	w, err := NewCWorld(2, c.Seed)
+	if err != nil {
+		tb.Fatalf("harness: cworld: %v", err)
+	}
+	defer w.Close()
+	fail := func(sig, detail string) bool { return rep.Fail(tb, "C01/cache/"+sig, detail, c) }
+	rebuilt, updated := false, false
+	for i, a := range c.Actions {
+		if a.Kind == "remove" {
+			continue // a removal is local by design: the bug comes back with the next pull, which is not the subject here
+		}
+		res, err := w.Exec(a)
+		if err != nil {
+			if ee, ok := err.(*ExecError); ok {
+				if fail("exec/"+ee.Sig, fmt.Sprintf("action #%d %s r%d: %s", i, a.Kind, a.R, ee.Detail)) {
+					rep.Case(cActionKinds(c.Actions), false, []string{"abandoned"}, nil)
+					return
+				}
+			}
+			tb.Fatalf("harness: %v", err)
+		}
+		rebuilt = rebuilt || res.Rebuilt
+		updated = updated || res.PullUpdatedExisting
+	}
+	refsOf := func() string {
+		var sb strings.Builder
+		for _, r := range w.R {
+			fmt.Fprintf(&sb, "%v\n", refsUnder(r.Repo, "refs/bugs/"))
+		}
+		if remote, err := repository.OpenGoGitRepo(w.RemotePath, "git-bug", nil); err == nil {
+			fmt.Fprintf(&sb, "remote %v\n", refsUnder(remote, "refs/bugs/"))
+			_ = remote.Close()
+		}
+		return sb.String()
+	}
+	for round := 0; ; round++ {
+		before := refsOf()
+		for ri := range w.R {
+			for _, kind := range []string{"pull", "push"} {
+				res, err := w.Exec(CAction{Kind: kind, R: ri})
+				if err != nil {
+					if ee, ok := err.(*ExecError); ok {
+						if fail("sync/"+ee.Sig, ee.Detail) {
+							rep.Case(cActionKinds(c.Actions), false, []string{"abandoned"}, nil)
+							return
+						}
+					}
+					tb.Fatalf("harness: %v", err)
+				}
+				updated = updated || res.PullUpdatedExisting
+			}
+		}
+		if os.Getenv("VERIF_DEBUG_SYNC") != "" {
+			fmt.Fprintf(os.Stderr, "---- cache sync round %d\n%s", round, refsOf())
+		}
+		if refsOf() == before {
+			break
+		}
+		if round > 6 {
+			fail("sync/no-quiescence", "refs still changing after 7 rounds")
+			return
+		}
+	}
+	classes := []string{"through-cache"}
+	if rebuilt {
+		classes = append(classes, "cache-rebuilt-in-session")
+	}
+	rep.Case(cActionKinds(c.Actions), updated, classes, c)
+	for _, id := range sortedIds(w.R[0].Cache.Bugs().AllIds()) {
+		var first []string
+		for ri, r := range w.R {
+			bc, err := r.Cache.Bugs().Resolve(entity.Id(id))
+			if err != nil {
+				if fail("bug-not-resolvable-after-sync/"+Normalize(err.Error()), fmt.Sprintf("replica %d bug %s: %v", ri, id, err)) {
+					return
+				}
+				continue
+			}
+			var ids []string
+			for _, op := range bc.Snapshot().Operations {
+				ids = append(ids, string(op.Id()))
+			}
+			stored, err := bug.Read(r.Repo, entity.Id(id))
+			if err != nil {
+				if fail("stored-bug-unreadable/"+Normalize(err.Error()), id) {
+					return
+				}
+				continue
+			}
+			if inGit := opIdsOf(stored); strings.Join(inGit, ",") != strings.Join(ids, ",") {
+				if fail("cache-shows-other-operations-than-git", fmt.Sprintf("replica %d bug %s after the synchronisation\ncache %v\ngit   %v", ri, id, ids, inGit)) {
+					return
+				}
+			}
+			if ri == 0 {
+				first = ids
+			} else if strings.Join(first, ",") != strings.Join(ids, ",") {
+				if fail("order-differs", fmt.Sprintf("bug %s: user 0 sees %v\nuser %d sees %v", id, first, ri, ids)) {
+					return
+				}
+			}
+		}
+	}
+}
+
+func TestC01CacheConvergence(t *testing.T) {
+	Drive(t, "C01", genC11, runC01Cache)
 }
